@@ -178,6 +178,14 @@ func runURL(raw string) (l urlLegs) {
 	l.validU = utf8.ValidString(l.s)
 	mt, _ := u.MarshalText()
 	l.mt = string(mt)
+	// the marshalled text belongs to the caller: marshalling another URL afterwards must not change it
+	if other, oerr := urlutil.Parse("http://other.example/" + strings.Repeat("z", len(mt))); oerr == nil {
+		_, _ = other.MarshalText()
+		_, _ = other.MarshalText()
+		if string(mt) != l.mt {
+			l.mt = "TEXT-CHANGED-BY-A-LATER-MarshalText:" + string(mt)
+		}
+	}
 	var u2 urlutil.URL
 	if err = u2.UnmarshalText(mt); err != nil {
 		l.utErr = true
@@ -351,8 +359,9 @@ func genC14(g *G) {
 		g.Emit("hpparse", HS(t))
 	}
 	// ---- prefix ----
-	addrs := []string{"1.2.3.4", "::1", "::ffff:1.2.3.4", "fe80::1%eth0", "0.0.0.0", "256.1.1.1", "1.2.3", "::", "1:2:3:4:5:6:7:8", "localhost", "", "::ffff:0:0", "01.2.3.4"}
-	sufs := []string{"", "/0", "/8", "/32", "/33", "/128", "/129", "/", "/-1", "/08", "/+8", "/ 8", "/8/8", "/a", "//8", "/96"}
+	addrs := []string{"1.2.3.4", "::1", "::ffff:1.2.3.4", "fe80::1%eth0", "0.0.0.0", "256.1.1.1", "1.2.3", "::", "1:2:3:4:5:6:7:8", "localhost", "", "::ffff:0:0", "01.2.3.4",
+		"fe80::1%net/wlan0", "fe80::1%e/0", "fe80::1%/", "1.2.3.4%x", "fe80::1%a/b/c/d/e"}
+	sufs := []string{"", "/0", "/8", "/32", "/33", "/128", "/129", "/", "/-1", "/08", "/+8", "/ 8", "/8/8", "/a", "//8", "/96", "/0064", "/00000008", "/64 ", "/1e1"}
 	for _, a := range addrs {
 		for _, s := range sufs {
 			t := a + s
